@@ -44,10 +44,7 @@ class SampleWorld:
         R = self.R
         s = R.sample()
         v = Vals(s)
-        from .c06 import find_sector
-        from .c14 import find_gauss
-        roles = {"sector": find_sector(self.ctx, R), "gauss": find_gauss(self.ctx, R)[2], "quantile": R.quantile(), "decompose": R.decompose(),
-                 "reader_ctor": R.reader_adt()["ctor"], "read": R.read_fn()}
+        roles = {"quantile": R.quantile(), "decompose": R.decompose(), "reader_ctor": R.reader_adt()["ctor"], "read": R.read_fn()}
         # by result-field provenance
         aggs = list(pat.aggregates(s, "TropicalSampleResult"))
         mds = list(pat.aggregates(s, "Metadata"))
@@ -62,6 +59,17 @@ class SampleWorld:
         roles["momenta"] = producer(aggs[0][2]["rv"], "loop_momenta")
         roles["vpoly"] = producer(aggs[0][2]["rv"], "v")
         roles["lmatrix"] = producer(mds[0][2]["rv"], "l_matrix")
+        roles["gauss"] = producer(mds[0][2]["rv"], "q_vectors")
+        # sector: producer of the Feynman parameters handed to the L-matrix kernel
+        roles["sector"] = None
+        for bi, t, cb in R.local_callees(s):
+            if cb is roles["lmatrix"]:
+                r0 = v.root(t["args"][0])
+                if r0.kind == "call":
+                    roles["sector"] = R.body_of_callee(s.blocks[r0.base[1]]["term"].get("callee"))
+        for k in ("gauss", "sector"):
+            if roles[k] is None:
+                raise RoleLost("kernel role `%s` (no local producer found)" % k)
         roles["uvec"] = producer(mds[0][2]["rv"], "u_vectors")
         roles["shift"] = producer(mds[0][2]["rv"], "shift")
         for k in ("lmatrix", "momenta", "vpoly", "uvec", "shift"):
